@@ -311,6 +311,7 @@ class Session:
         self.oracle = {**DEFAULT_ORACLE, **case.get("oracle", {})}
         self.scratch = scratch
         self.strict_only = []  # strict-only differences seen (KF-TYPE candidates)
+        self.raw_history = {}
         self.step_index = -1
         self.objs = {}
         self.aux_count = 0
@@ -432,6 +433,15 @@ class Session:
                 pass
 
     def do_step(self, step):
+        if self.case.get("track_raw"):
+            for r_i, r in enumerate(self.resources):
+                h = self.raw_history.setdefault(r_i, [])
+                raw = r.raw()
+                cur = self.model.truth[r_i]
+                if not h or not (h[-1][1] == cur and model.strict_eq(h[-1][1], cur)):
+                    h.append([raw, copy.deepcopy(cur)])
+                else:
+                    h[-1][0] = raw  # same content, latest bytes
         if "op" in step:
             return self._do_op(step)
         if "retain" in step:
@@ -457,6 +467,19 @@ class Session:
                 k = "trans:" + step["trans"]
                 self.counters[k] = self.counters.get(k, 0) + 1
             return
+        if "restore" in step:
+            # the outside writer puts back, byte for byte, what the resource held ``restore`` snapshots ago
+            hist = self.raw_history.get(step["res"], [])
+            if len(hist) > step["restore"]:
+                raw, content = hist[-1 - step["restore"]]
+                if raw is not None:
+                    if self.info.backend == "mongo":  # documents have no byte form in the fake
+                        self.resources[step["res"]].outside_write(copy.deepcopy(content))
+                    else:
+                        self.resources[step["res"]].outside_write(None, raw=raw, bump=step.get("bump", False))
+                    self.model.outside(step["res"], copy.deepcopy(content))
+                    self.counters["restores"] = self.counters.get("restores", 0) + 1
+            return
         if "enter" in step:
             return self._do_enter(step)
         if "exit" in step:
@@ -480,8 +503,15 @@ class Session:
             return  # handle was never created (retain failed on the model side)
         op = step["op"]
         checked = H.attached
-        self.counters["ops"] += 1
         mut = model.is_mutator(op)
+        if mut and not checked:
+            # The run-time model no longer tracks this handle (it can differ from the generation-time model:
+            # popitem may return any pair, a restore step brings back content the generator did not know).
+            # Nothing is defined for a write through it, so the step is not executed at all.
+            self.counters["skipped_mutators_on_untracked_handles"] = \
+                self.counters.get("skipped_mutators_on_untracked_handles", 0) + 1
+            return
+        self.counters["ops"] += 1
         self.counters["mut" if mut else "reads"] += 1
         buffered_before = m.res_buffered(H.res)
         armed = self._arm()
